@@ -40,6 +40,7 @@ basestring = str
 _AbstractIterableBase = ABCMeta('_AbstractIterableBase', (object,), {})
 from collections import ChainMap
 from reprlib import Repr, recursive_repr
+from threading import get_ident
 
 GLOM_DEBUG = os.getenv('GLOM_DEBUG', '').strip().lower()
 GLOM_DEBUG = False if (GLOM_DEBUG in ('', '0', 'false')) else True
@@ -528,9 +529,19 @@ class _BBRepr(Repr):
             if not isinstance(getattr(self, name), int):
                 continue
             setattr(self, name, 1024)
+        self._running = set()
 
     def repr1(self, x, level):
-        ret = Repr.repr1(self, x, level)
+        # a container that (indirectly) contains itself is cut off where
+        # it comes round again, like the builtin repr does
+        key = (id(x), get_ident())
+        if key in self._running:
+            return '...'
+        self._running.add(key)
+        try:
+            ret = Repr.repr1(self, x, level)
+        finally:
+            self._running.discard(key)
         if not ret.startswith('<'):
             return ret
         return _BUILTIN_ID_NAME_MAP.get(id(x), ret)
